@@ -5,7 +5,7 @@ from __future__ import annotations
 import ast
 import re
 
-from ..astutil import attr_chain, call_attr, calls_in, guard_facts, inline_chain_aliases, unparse, walk_local, text_facts
+from ..astutil import alpha_same, attr_chain, call_attr, calls_in, guard_facts, inline_chain_aliases, unparse, walk_local, text_facts
 from ..cfg import CFG
 from ..dataflow import reaching_defs, resolved_text
 from ..report import Finding, Report
@@ -258,7 +258,27 @@ def check(idx: Index, rep: Report, tier: str) -> str:
     for qual, lst in (("PatternRewriter.replace_all_uses_with", "modified_ops"), ("PatternRewriter.replace_uses_with_if", "tracking.modified_ops")):
         f = idx.func(PR, qual)
         cfg = CFG(f.node)
-        loops = [w for w in walk_local(f.node) if isinstance(w, ast.For) and unparse(w.iter) == lst and any(unparse(c.func) == "self.handle_operation_modification" and unparse(c.args[0]) == unparse(w.target) for c in calls_in(w))]
+        fromv = f.node.args.args[1].arg
+
+        def _is_modified_users(it: ast.expr, w: ast.For) -> bool:
+            """the iterable holds the users of `from_value` captured before the re-routing, or the users the tracking
+            predicate recorded"""
+            t_ = resolved_text(cfg, it, cfg.node_of(w))
+            try:
+                e_ = ast.parse(t_, mode="eval").body
+            except SyntaxError:
+                return False
+            if alpha_same(e_, f"[use.operation for use in {fromv}.uses]") or alpha_same(e_, f"list(use.operation for use in {fromv}.uses)") or alpha_same(e_, f"tuple(use.operation for use in {fromv}.uses)"):
+                return True
+            m_ = re.fullmatch(r"(\w+)\.modified_ops", unparse(it))
+            if m_:
+                trk = m_.group(1)
+                made = any(isinstance(s_, ast.Assign) and len(s_.targets) == 1 and unparse(s_.targets[0]) == trk and isinstance(s_.value, ast.Call) and unparse(s_.value.func) == "_TrackingPredicate" for s_ in walk_local(f.node))
+                used = any(call_attr(c_) == "replace_uses_with_if" and unparse(c_.func.value) == fromv and len(c_.args) == 2 and unparse(c_.args[1]) == trk for c_ in calls_in(f.node))  # type: ignore[attr-defined]
+                return made and used
+            return False
+
+        loops = [w for w in walk_local(f.node) if isinstance(w, ast.For) and _is_modified_users(w.iter, w) and any(unparse(c.func) == "self.handle_operation_modification" and unparse(c.args[0]) == unparse(w.target) for c in calls_in(w))]
         inst = f.fq + ":each"
         if not loops:
             r2.fail(inst, Finding("C11.R2", f.fq, "modification-not-each", f"users whose operand was re-routed ({lst}) are not all passed to handle_operation_modification", f.loc))
@@ -274,8 +294,11 @@ def check(idx: Index, rep: Report, tier: str) -> str:
     cfg = CFG(f.node)
     rw = [c for c in calls_in(f.node) if unparse(c.func) == "Rewriter.replace_value_with_new_type"]
     notes = [c for c in calls_in(f.node) if unparse(c.func) == "self.handle_operation_modification"]
-    argtxt = {unparse(c.args[0]) for c in notes}
-    if rw and {"val.op", "op"} <= argtxt and all(cfg.node_of(rw[0]) in cfg.reachable(cfg.node_of(c)) for c in notes):
+    valp = f.node.args.args[1].arg
+    argtxt = {resolved_text(cfg, c.args[0], cfg.node_of(c)) for c in notes}
+    # result: its defining op; block argument: the op that owns the block (a local bound to <val>.block.parent_op())
+    owner_ok = f"{valp}.op" in argtxt and any(re.fullmatch(rf"{re.escape(valp)}\.(block|owner)\.parent_op\(\)|{re.escape(valp)}\.(block|owner)\.parent\.parent", t_) or (isinstance(c.args[0], ast.Name) and any(re.fullmatch(rf"\(?(\w+ := )?{re.escape(valp)}\.(block|owner)\.parent_op\(\)\)?", unparse(v_)) for v_ in [n_.value for n_ in ast.walk(f.node) if isinstance(n_, ast.NamedExpr) and n_.target.id == c.args[0].id])) for c in notes for t_ in [resolved_text(cfg, c.args[0], cfg.node_of(c))])
+    if rw and owner_ok and all(cfg.node_of(rw[0]) in cfg.reachable(cfg.node_of(c)) for c in notes):
         r2.ok(f.fq, f"{f.loc} owner op notified (result: val.op; block argument: parent op) before the value is replaced")
     else:
         r2.fail(f.fq, Finding("C11.R2", f.fq, "retype-notify", "replace_value_with_new_type must notify the owner operation (val.op / parent op of the block) before replacing the value", f.loc))
